@@ -170,10 +170,17 @@ GnuTabL = Obj('GNUHashTable', elffile=_EF(), _symboltable=SymTabShared, params=G
 
 @contract("elftools/elf/hash.py", "GNUHashTable._matches_bloom", props=["C03"])
 class matches_bloom:
-    """(assumed) the bloom filter test; that it never rejects a present name is part of the table's
-    well-formedness, not of the lookup"""
-    mode = 'assume'
+    """the GNU hash bloom filter test (glibc dl-lookup.c, do_lookup_x): the filter word is number (H1 / C) mod
+    bloom_size, C the class in bits (the format requires bloom_size to be a power of two, so the mask of the loader and
+    this remainder agree); the name may be present only if bit H1 mod C and bit (H1 >> bloom_shift) mod C of that word
+    are both set.  The mask test `(word & BITMASK) == BITMASK` with BITMASK = (1 << a) | (1 << b) is decided through the
+    rule mask-test-two-bits, proved in Lean for all natural numbers (lean/Bitops.lean)."""
+    params = dict(self=GnuTabT, H1=U32)
+    requires = ["len(self.params.bloom) == self.params.bloom_size"]
     returns = Bool
+    ghost = {"$c": "self.elffile.elfclass", "$w": "self.params.bloom[(H1 // self.elffile.elfclass) % self.params.bloom_size]"}
+    ensures = ["result == ((($w >> (H1 % $c)) & 1) == 1 and (($w >> ((H1 >> self.params.bloom_shift) % $c)) & 1) == 1)"]
+    raises = {"ZeroDivisionError": "self.params.bloom_size == 0"}
 
 
 @contract("elftools/elf/hash.py", "GNUHashTable.get_symbol", props=["C03", "C10"])
@@ -185,7 +192,10 @@ class gnu_get_symbol:
     stream is shared with the symbol and string tables, whose reads move it"""
     params = dict(self=GnuTabL, name=Str)
     requires = ["len(self.params.buckets) == self.params.nbuckets", "self.params.nbuckets > 0", "self._chain_pos < 2**62",
-                "self._symboltable.structs.elfclass == self._symboltable.elffile.elfclass"]
+                "self._symboltable.structs.elfclass == self._symboltable.elffile.elfclass",
+                # the header's arrays have the lengths the header announces (layout K2); a valid table has at least one
+                # filter word (the loader masks with bloom_size - 1; zero words make the code divide by zero)
+                "len(self.params.bloom) == self.params.bloom_size", "self.params.bloom_size > 0"]
     returns = Opt(SymRet)
     ghost = {"$B": "self.elffile.stream.B", "$le": "self.elffile.little_endian", "$so": "self.params.symoffset", "$cp": "self._chain_pos",
              "$T": "self._symboltable"}
